@@ -133,7 +133,8 @@ Definition e4_kill (th : thread) : thread :=
   | PFinished => th
   | _ => {| t_req := t_req th; t_pc := PFinished; t_postings := t_postings th; t_unb := t_unb th;
             t_view := t_view th; t_entry := t_entry th; t_txid := t_txid th;
-            t_granted := t_granted th; t_resp := Some RCrashed; t_gen := t_gen th |}
+            t_granted := t_granted th; t_resp := Some RCrashed; t_gen := t_gen th;
+            t_cancelled := t_cancelled th |}
   end.
 Lemma e4_crash_threads s : threads (crash s) = map (fun p => (fst p, e4_kill (snd p))) (threads s).
 Proof. reflexivity. Qed.
